@@ -84,7 +84,7 @@ def _conc_task(job):
         # run, so that set-iteration-order dependent behaviour of the real code (known finding R1) reproduces
         stubs.deterministic_ids()
         res = core.run_concrete(fn, job["params"], job["inputs"], rtol=job.get("rtol", 1e-9),
-                                atol=job.get("atol", 0.0))
+                                atol=job.get("atol", 0.0), sample=job.get("sample"))
         res["job"] = job
         res["error"] = None
         return res
@@ -341,6 +341,47 @@ def run_property(modname, tier, seed, jobs=None):
                 fid_bad.append(dict(harness=j["harness"], params=j["params"], inputs=_frac_json(j["inputs"]),
                                     expected_outcome=exp_outcome, outcome=cr["outcome"], diffs=bad[:5],
                                     notes=cr.get("notes", [])[:2]))
+    # ---- fallback for harness instances the engine could not execute faithfully on this tree (engine error, symbolic and
+    # concrete outcome differ, solver model not reproduced, no obligation reached): the same harness is run on the real
+    # code at concrete inputs drawn from the variables' boxes.  A failing obligation there is a violation shown on the
+    # real code (reported like a confirmed counterexample); finding none leaves the engine error standing (exit 2).
+    gaps = {}
+    for r in sym_results:
+        n_ob = sum(len(pr.obligations) for pr in r["paths"])
+        if r["error"] or (n_ob == 0 and not r["task"].get("allow_no_obligation")):
+            gaps[(r["task"]["harness"], json.dumps(r["task"]["params"], sort_keys=True, default=str))] = r["task"]
+    by_key = {(r["task"]["harness"], json.dumps(r["task"]["params"], sort_keys=True, default=str)): r["task"] for r in sym_results}
+    for fb in fid_bad:
+        k = (fb["harness"], json.dumps(fb["params"], sort_keys=True, default=str))
+        gaps[k] = by_key[k]
+    for key, g in cand_groups.items():
+        if g["confirmed"] is None and not getattr(mod, "UNCONFIRMED_OK", False):
+            gaps[(key[0], key[1])] = by_key[(key[0], key[1])]
+    n_fallback = 0
+    if gaps:
+        per = max(4, min(16 if tier == "quick" else 48, 400 // len(gaps)))
+        fjobs = [dict(kind="fallback", module=modname, harness=t["harness"], params=t["params"], inputs={}, sample=k,
+                      label="fallback", path_outcome="?") for t in gaps.values() for k in range(per)]
+        n_fallback = len(fjobs)
+        for _, cr in run_parallel([("conc", j) for j in fjobs], nproc):
+            j = cr["job"]
+            if cr["error"] or not cr["failures"]:
+                continue
+            key = (j["harness"], json.dumps(j["params"], sort_keys=True, default=str), "fallback")
+            g = cand_groups.setdefault(key, dict(job=j, confirmed=None, tries=0))
+            g["tries"] += 1
+            if g["confirmed"] is None:
+                cr["job"] = dict(j, inputs=cr.get("inputs_used", {}))
+                g["confirmed"] = cr
+        # fidelity replays of these instances that already showed failing obligations on the real code count as well
+        for cr in conc_results:
+            j = cr["job"]
+            if j["kind"] == "fidelity" and not cr["error"] and cr["failures"] \
+                    and (j["harness"], json.dumps(j["params"], sort_keys=True, default=str)) in gaps:
+                key = (j["harness"], json.dumps(j["params"], sort_keys=True, default=str), "fallback")
+                g = cand_groups.setdefault(key, dict(job=j, confirmed=None, tries=0))
+                if g["confirmed"] is None:
+                    g["confirmed"] = cr
     per_instance = {}
     for key, g in cand_groups.items():
         j = g["job"]
@@ -430,6 +471,7 @@ def run_property(modname, tier, seed, jobs=None):
         float_order_cells_checked_bit_for_bit=fid_float_checked,
         counterexamples_replayed=len(cand_groups), counterexamples_confirmed=sum(1 for g in cand_groups.values() if g["confirmed"]),
         unconfirmed_candidates=unconfirmed[:10],
+        fallback_concrete_runs=n_fallback,
         known_findings_matched=[dict(property=p, what=w, hits=n) for (p, w), n in known_hits.items()],
         functions_encoded=functions, bounds=getattr(mod, "BOUNDS", {}), stubs=_stub_list(),
         engine_counters=merged_counters,
